@@ -5,6 +5,7 @@ import (
 	"fmt"
 	"strconv"
 	"strings"
+	"unicode"
 
 	"github.com/c4pt0r/kvql"
 
@@ -31,7 +32,7 @@ func (c16) Info() core.Info {
 		ID:    "C16",
 		Title: "Tokens carry their true offset and text; spacing between tokens is irrelevant",
 		Level: "exploration",
-		Rule: "(1) ALL strings of length <= 6 (thorough: 7) over the symbol alphabet {a 1 space ' \" = ! < + & ( ,}, over {k . ` ^ ~ > - * | ) [ ;} and over {a space ' \" ` = ( , 1} (all three quote characters together) and over {a space TAB LF CR ' = 1 ,} (every kind of white space); (2) words of every length 1..40 in lower / UPPER / Mixed case and long numbers, alone and next to operators and brackets; (3) all sequences of <= 4 (thorough: 5) tokens from a 24-token pool (keywords, word operators, names, numbers, quoted literals, every symbol class) rendered with every choice of 0/1/2 spaces between neighbours wherever the reference lexer says the space is optional. " +
+		Rule: "(1) ALL strings of length <= 6 (thorough: 7) over the symbol alphabet {a 1 space ' \" = ! < + & ( ,}, over {k . ` ^ ~ > - * | ) [ ;} and over {a space ' \" ` = ( , 1} (all three quote characters together) and over {a space TAB LF CR ' = 1 ,} (every kind of white space); (2) words of every length 1..40 in lower / UPPER / Mixed case and long numbers, alone and next to operators and brackets; (3) all sequences of <= 5 units over {a 1 = ' blank FF VT NBSP NEL EM-SPACE}; (4) all sequences of <= 4 (thorough: 5) tokens from a 24-token pool (keywords, word operators, names, numbers, quoted literals, every symbol class) rendered with every choice of 0/1/2 spaces between neighbours wherever the reference lexer says the space is optional. " +
 			"Oracle: an independent reference lexer written from the README token classes: same sequence of kinds and texts; every token's text is found at its reported offset (case-folded for words; quoted literals: the exact bytes between the quotes); two-character operators are one token; spacing variants give identical kind/text sequences. Non-trivial: >= 2 tokens. Distinct: the input string.",
 		Assumptions: []string{
 			"white space is the space, tab, line feed and carriage return characters", "after an unterminated quote only the tokens before it are judged",
@@ -137,8 +138,14 @@ func refLex(q string) (toks []rtok, unterminated, odd bool) {
 			for j < len(q) && !isSep(q[j]) {
 				j++
 			}
+			// other white space (form feed, vertical tab, no-break space ...)
+			// around a word is not part of its text
 			w := q[i:j]
-			toks = append(toks, rtok{classifyWord(w), strings.ToLower(w), i})
+			lead := len(w) - len(strings.TrimLeftFunc(w, unicode.IsSpace))
+			w = strings.TrimSpace(w)
+			if w != "" {
+				toks = append(toks, rtok{classifyWord(w), strings.ToLower(w), i + lead})
+			}
 			i = j
 		}
 	}
@@ -296,6 +303,7 @@ func c16Units(t core.Tier) []c16Unit {
 		us = append(us, c16Unit{fam: "spacing", i: i})
 	}
 	us = append(us, c16Unit{fam: "words"})
+	us = append(us, c16Unit{fam: "uspace"})
 	return us
 }
 
@@ -341,6 +349,23 @@ func (c16) RunUnit(t core.Tier, u int, r *core.Reporter) {
 		}
 		rec(un.pre)
 		r.Observed(un.pre)
+	case "uspace":
+		// all sequences of <= 5 units over words, an operator, a quote and
+		// six kinds of white space beyond the blank
+		units := []string{"a", "1", "=", "'", " ", "\f", "\v", "\u00a0", "\u0085", "\u2003"}
+		var rec func(cur string, n int)
+		rec = func(cur string, n int) {
+			if n > 0 {
+				judge(c16Case{Query: cur})
+			}
+			if n == 5 {
+				return
+			}
+			for _, u := range units {
+				rec(cur+u, n+1)
+			}
+		}
+		rec("", 0)
 	case "words":
 		// words of every length 1..40 in lower, UPPER and Mixed case (keywords
 		// are at most 7 bytes long), numbers of growing length, alone and
